@@ -221,6 +221,8 @@ def _gen_op(rng, g, cfg, fault_now):
         return op
     if g == "set" and rng.random() < 0.2:
         return {"k": "set_case", **_tn(rng), "key": rng.randrange(64), "whole": rng.random() < 0.5}
+    if g == "set" and rng.random() < 0.25:
+        return {"k": "set_leaf", **_tn(rng), "key": rng.randrange(64), "mode": rng.choice(["drop", "drop", "zero", "bump"])}
     if g == "set":
         return {"k": "set", **_tn(rng), "key": rng.randrange(64), "v": rng.choice([None, _val(rng), _val(rng)]), "list": [_val(rng) for _ in range(rng.randint(0, 3))]}
     if g == "set_idx":
@@ -533,6 +535,53 @@ def _apply(world, op, st):
         i = next(j for j, ch in enumerate(v) if ch.swapcase() != ch)
         x.set(key, v.swapcase() if op["whole"] else v[:i] + v[i].swapcase() + v[i + 1:])
         res["cls"] = type(x).__name__
+        return res
+
+    if k == "set_leaf":
+        # change one plain (non-Expression) leaf value: number bumped or zeroed, string extended or emptied, a zero / empty / True
+        # leaf dropped. Whatever the edit, if the SQL changes the tree must stop comparing equal to its pre-edit snapshot.
+        t, n, nodes = target(op["t"], op["n"])
+        res["targets"].add(id(t)); res["mut_tree"] = t
+        ni = next(i for i, x in enumerate(nodes) if x is n)
+        mode = op["mode"]
+
+        def ok(vv, required=False):
+            if mode == "drop":
+                # dropping a REQUIRED arg makes an invalid node, and nothing is promised about comparing those
+                return not required and (vv is True or (type(vv) in (int, str) and not vv))
+            if mode == "zero":
+                return (type(vv) is int and vv != 0) or (type(vv) is str and vv != "")
+            return type(vv) in (int, str)
+
+        cand = None
+        for x in nodes[ni:] + nodes[:ni]:
+            ks = sorted(kk for kk, vv in x.args.items() if ok(vv, bool(x.arg_types.get(kk))))
+            if ks:
+                cand = (x, ks[op["key"] % len(ks)])
+                break
+        if cand is None:
+            res["outcome"] = "skip"
+            res["targets"] = set(); res["mut_tree"] = None; res["nm"] = [t]
+            return res
+        x, key = cand
+        v = x.args[key]
+        if mode == "drop":
+            new = None
+        elif mode == "zero":
+            new = 0 if type(v) is int else ""
+        else:
+            new = v + 1 if type(v) is int else v + "x"
+        x.set(key, new)
+        res["cls"] = type(x).__name__
+        res["leaf_edit"] = "%s.%s: %r -> %r" % (type(x).__name__, key, v, new)
+        if mode == "zero" and not x.arg_types.get(key):
+            # 0 / "" in an OPTIONAL arg versus the arg being absent: different leaf values, so a twin that only lacks it is unequal
+            now = inv.walk(t)
+            idx = next(i for i, y in enumerate(now) if y is x)
+            twin = inv.clone(t)
+            inv.walk(twin)[idx].set(key, None)
+            if inv.eq_preserving(twin, t):
+                res["leaf_absent_equal"] = "%s.%s = %r compares equal to the same tree without that arg" % (type(x).__name__, key, new)
         return res
 
     if k == "set":
@@ -1080,7 +1129,7 @@ def _apply_nm(world, op, st, res, target):
 
 # --------------------------------------------------------------------------- the run loop + oracles
 
-C08_ORACLES = ("I1-link", "I2-dup", "I3-stale-hash", "I4-eq-clone", "I4-eq-sql", "I4-unhashable", "I5-frame")
+C08_ORACLES = ("I1-link", "I2-dup", "I3-stale-hash", "I4-eq-clone", "I4-eq-sql", "I4-eq-leaf", "I4-unhashable", "I5-frame")
 C09_ORACLES = ("N1-arg-mutated", "N2-arg-sql-changed", "N3-copy-not-equal", "N4-copy-shares-node", "N5-arg-cache-link")
 
 
@@ -1116,7 +1165,7 @@ def execute(record, state=None):
         pre_sql = None
         snap = None
         tgt_tree = None
-        if world.trees and k in ("set", "set_case", "set_idx", "append", "replace", "pop", "transform", "replace_children", "replace_tree", "builder", "wrap", "set_kwargs", "rule"):
+        if world.trees and k in ("set", "set_case", "set_leaf", "set_idx", "append", "replace", "pop", "transform", "replace_children", "replace_tree", "builder", "wrap", "set_kwargs", "rule"):
             tgt_tree = world.tree(op["t"])
             pre_sql = _sql(tgt_tree)
             if pre_sql is not None:
@@ -1256,6 +1305,13 @@ def execute(record, state=None):
                 if judged and type(mt) is type(snap) and inv.eq_preserving(mt, snap):
                     diff = next(((a_, b_) for a_, b_ in zip(pre_sql[1], now_sql[1]) if a_ != b_), None) if now_sql[0] == pre_sql[0] else (pre_sql[0][:100], now_sql[0][:100])
                     v = fail("I4-eq-sql", _opname(op), step, "after %s the SQL changed (%r -> %r) but the tree still compares equal to its pre-edit snapshot" % (_opname(op), diff[0], diff[1]))
+        if v is None and k == "set_leaf" and res.get("leaf_edit") and snap is not None and res["mut_tree"] is not None:
+            # "equal exactly when same structure and leaf values": 0, "" and True are values; only None / False / [] mean "absent"
+            mt = res["mut_tree"]
+            if type(mt) is type(snap) and inv.eq_preserving(mt, snap):
+                v = fail("I4-eq-leaf", _opname(op), step, "after changing the leaf %s the tree still compares equal to its pre-edit snapshot" % res["leaf_edit"])
+            elif res.get("leaf_absent_equal"):
+                v = fail("I4-eq-leaf", _opname(op), step, res["leaf_absent_equal"])
         if v is None:
             # I5 frame: trees that are not declared targets keep their strict fingerprint
             for t in pre_trees:
@@ -1313,6 +1369,8 @@ def _opname(op):
         return "rule:" + op["rule"]
     if k == "set_idx":
         return "set_idx:" + op["mode"]
+    if k == "set_leaf":
+        return "set_leaf:" + op["mode"]
     if k == "replace":
         return "replace:" + op["with"]
     if k == "transform":
